@@ -2562,8 +2562,9 @@ func genGlobalVarDecl(nodes []*node, sc *scope) (*node, error) {
 	varNode := &node{kind: varDecl, action: aNop, gen: nop}
 
 	deps := map[*node][]*node{}
+	refs := map[*node]*globalRefs{}
 	for _, n := range nodes {
-		deps[n] = getVarDependencies(n, sc)
+		deps[n] = getVarDependencies(n, sc, refs)
 	}
 
 	// Repeatedly select the earliest variable in declaration order which is
@@ -2607,25 +2608,80 @@ func genGlobalVarDecl(nodes []*node, sc *scope) (*node, error) {
 	return varNode, nil
 }
 
-func getVarDependencies(nod *node, sc *scope) (deps []*node) {
-	nod.Walk(func(n *node) bool {
-		if n.kind != identExpr {
+// globalRefs lists the global variables and the functions or methods declared
+// in source which are referenced in a node subtree.
+type globalRefs struct {
+	vars  []*node // Defining nodes of referenced global variables.
+	funcs []*node // Declarations of referenced functions and methods.
+}
+
+// getGlobalRefs returns the global references found in the subtree of root.
+// If sc is not nil, the identifiers not resolved by CFG are looked up in sc.
+func getGlobalRefs(root *node, sc *scope) *globalRefs {
+	r := &globalRefs{}
+	root.Walk(func(n *node) bool {
+		switch n.kind {
+		case selectorExpr:
+			// A method value, call or expression refers to the method declaration.
+			if m, ok := n.val.(*node); ok && m != nil && m.kind == funcDecl {
+				r.funcs = append(r.funcs, m)
+			}
+			return true
+		case identExpr:
+			// Processed below.
+		default:
 			return true
 		}
 		// Process ident nodes, and avoid false dependencies.
 		if n.anc.kind == selectorExpr && childPos(n) == 1 {
 			return false
 		}
-		sym, _, ok := sc.lookup(n.ident)
-		if !ok {
+		sym := n.sym
+		if sym == nil && sc != nil {
+			sym, _, _ = sc.lookup(n.ident)
+		}
+		if sym == nil || sym.node == nil {
 			return false
 		}
-		if sym.kind != varSym || !sym.global || sym.node == nod {
-			return false
+		switch {
+		case sym.kind == varSym && sym.global:
+			r.vars = append(r.vars, sym.node)
+		case sym.kind == funcSym && sym.node.kind == funcDecl:
+			r.funcs = append(r.funcs, sym.node)
 		}
-		deps = append(deps, sym.node)
 		return false
 	}, nil)
+	return r
+}
+
+// getVarDependencies returns the global variables on which the initialization
+// of nod depends: those referenced in its initialization expression, directly
+// or through the bodies of the referenced functions and methods, transitively.
+// The direct references of functions are cached in refs.
+func getVarDependencies(nod *node, sc *scope, refs map[*node]*globalRefs) (deps []*node) {
+	seen := map[*node]bool{nod: true}
+	r := getGlobalRefs(nod, sc)
+	for todo := []*globalRefs{r}; len(todo) > 0; {
+		r, todo = todo[len(todo)-1], todo[:len(todo)-1]
+		for _, v := range r.vars {
+			if !seen[v] {
+				seen[v] = true
+				deps = append(deps, v)
+			}
+		}
+		for _, f := range r.funcs {
+			if seen[f] {
+				continue
+			}
+			seen[f] = true
+			if refs[f] == nil {
+				// In function bodies, only the symbols resolved by CFG are
+				// considered, as a local variable may shadow a global one.
+				refs[f] = getGlobalRefs(f, nil)
+			}
+			todo = append(todo, refs[f])
+		}
+	}
 	return deps
 }
 
